@@ -399,7 +399,12 @@ def gen(rng, size='small', focus=None):
     if rng.random() < 0.3:
         ext.append(['run', rng.choice([8, 16, 24])])
     ext += [['step']] * nsteps
+    if rng.random() < 0.15:
+        ext.append(['run', 0])         # a run of length zero executes what is due at the current instant
     ext.append(['run', horizon])
     if rng.random() < 0.3:
-        ext.append(['run', rng.choice([8, 40])])
-    return dict(seed=rng.randint(0, 1000), mod=rng.choice([1, 3, 3, 1 << 20]), entities=ents, pools=pools, uops=uops, ext=ext, focus=focus)
+        ext.append(['run', rng.choice([8, 40, 0])])
+    sc = dict(seed=rng.randint(0, 1000), mod=rng.choice([1, 3, 3, 1 << 20]), entities=ents, pools=pools, uops=uops, ext=ext, focus=focus)
+    if rng.random() < 0.06:
+        sc['tick'] = 1024      # the same scenario on a grid of 1/1024 time (and value) units
+    return sc
